@@ -148,7 +148,8 @@ def phrase(draw, profile):
 @st.composite
 def address(draw, profile):
     k = draw(st.integers(0, 9))
-    local = draw(st.sampled_from(["alice", "bob", "john.doe", "x+tag", "o'neil", "a_b", "info"]))
+    # (quoted local parts carry quoted-specials into the ENVELOPE's mailbox string: seeded/C07)
+    local = draw(st.sampled_from(["alice", "bob", "john.doe", "x+tag", "o'neil", "a_b", "info", '"john doe"', '"a\\"b"', '"back\\\\slash"']))
     dom = draw(st.sampled_from(["example.com", "vf.example", "mail.example.org", "x.y.z.example"]))
     spec = f"{local}@{dom}"
     if k <= 2:
